@@ -250,6 +250,10 @@ def slice_with_newaxes(x, index):
     # Strip Nones from index
     index2 = tuple(ind for ind in index if ind is not None)
     where_none = [i for i, ind in enumerate(index) if ind is None]
+    # positions in the index as written (integers still present): the per-block
+    # index tuples are expanded with these, the keys and chunks with the
+    # positions left after the integer axes are dropped
+    where_none_orig = list(where_none)
     for i, xx in enumerate(where_none):
         n = sum(isinstance(ind, Integral) for ind in index[:xx])
         if n:
@@ -260,7 +264,11 @@ def slice_with_newaxes(x, index):
 
     if where_none:
         return SlicesWrapNone(
-            x.array, x.index, x.allow_getitem_optimization, where_none
+            x.array,
+            x.index,
+            x.allow_getitem_optimization,
+            where_none,
+            where_none_orig,
         )
 
     else:
@@ -430,7 +438,14 @@ class SliceSlicesIntegers(Slice):
 
 
 class SlicesWrapNone(SliceSlicesIntegers):
-    _parameters = ["array", "index", "allow_getitem_optimization", "where_none"]
+    _parameters = [
+        "array",
+        "index",
+        "allow_getitem_optimization",
+        "where_none",
+        "where_none_orig",
+    ]
+    _defaults = {"where_none_orig": None}
 
     @functools.cached_property
     def chunks(self):
@@ -443,7 +458,11 @@ class SlicesWrapNone(SliceSlicesIntegers):
     def _layer(self) -> dict:
         dsk = super()._layer()
 
-        where_none_orig = list(self.where_none)
+        where_none_orig = list(
+            self.where_none
+            if self.operand("where_none_orig") is None
+            else self.operand("where_none_orig")
+        )
         expand_orig = expander(where_none_orig)
 
         # Insert ",0" into the key:  ('x', 2, 3) -> ('x', 0, 2, 0, 3)
